@@ -177,6 +177,9 @@ def r_reaction(idx, rep, rule="R-REACTION"):
             continue
         F = pos[1]
         S = F[1]
+        put("wrenches are computed from the surface as find_contact_surface returned it", not any(isinstance(x_, tuple) and x_[:1] == ("mutated",) for x_ in _walk_terms(S)),
+            "the forces are read from `%s`: a method that re-expresses the contact surface in place (world frame) ran BEFORE the wrenches were accumulated, so "
+            "world-frame data is transformed by frame2world once more" % ws.show(S, names)[:120])
         names[S] = "surface"
         put("f21 = sum of the contact forces", f21 == ("sum0", F),
             "the third returned value must be the wrench ON body 1 (force +sum F): its force part is `%s` (the two wrenches are swapped somewhere along contact_forces / "
